@@ -73,7 +73,7 @@ CHECKS = {
     "C06": (
         True,
         'Lean 4 proof of the projection property on the model + decidable statement evaluated on model and implementation + differential correspondence on perturbed contents',
-        'Theorems Props.C06.main (for every text x, W(R(x)) is a fixed point of read-then-write and the lines matching no register are the same in x and y, in order — from record-level stability of the typed records of x), recStable_of_laws (record stability from the C01 per-field laws) main_int_lit, main_regs_F and main_regs_FE (no premise about the records left for files of integer / literal / float registers, floats in F notation and, Props/C06E.lean, in E notation with up to twelve decimals and zero or normal values of at least 2^-948). Records with date fields: the premise is evaluated per case by the exact model; the statement is evaluated on every generated text on model and implementation, in memory and through paths.',
+        'Theorems Props.C06.main (for every text x, W(R(x)) is a fixed point of read-then-write and the lines matching no register are the same in x and y, in order — from record-level stability of the typed records of x), recStable_of_laws (record stability from the C01 per-field laws) main_int_lit, main_regs_F and main_regs_FE (no premise about the records left for files of integer / literal / float registers, floats in F notation and, Props/C06E.lean, in E notation with up to twelve decimals and zero or normal values of at least 2^-948). Props.C06.main_regs_all (Props/C06D.lean) adds date fields. Records holding floats outside the ranges of the C01 float laws: the premise is evaluated per case by the exact model; the statement is evaluated on every generated text on model and implementation, in memory and through paths.',
         "Trusted: Lean kernel; model; representability and unambiguity are decided by Lean predicates.",
         "6/C06",
     ),
